@@ -224,6 +224,81 @@ class Monitors:
     def bump(self, k):
         self.counts[k] = self.counts.get(k, 0) + 1
 
+    def install(self):
+        """C14 monitors at the three build-to-target seams (inside solver steps)."""
+        import isla.isla_predicates as ip
+        import isla.solver as sv
+        from oracles import targets
+
+        mon = self
+        undo = []
+
+        orig_cflt = sv.create_fixed_length_tree
+
+        def create_fixed_length_tree(start, canonical_grammar, target_length):
+            result = orig_cflt(start, canonical_grammar, target_length)
+            mon.bump("c14_fixed_length_calls")
+            if result is not None:
+                mon.bump("c14_fixed_length_built")
+                nt = start if isinstance(start, str) else start.value
+                g = {k: ["".join(alt) for alt in alts] for k, alts in canonical_grammar.items()}
+                problem = targets.judge_fixed_length(g, nt, target_length, to_model(result), str(result))
+                if problem:
+                    mon.violations.append({"property": "C14", "clause": "solver_fixed_length", "detail": problem})
+            return result
+
+        sv.create_fixed_length_tree = create_fixed_length_tree
+        undo.append(lambda: setattr(sv, "create_fixed_length_tree", orig_cflt))
+
+        orig_int = sv.ISLaSolver.extract_model_value_int_var
+
+        def extract_model_value_int_var(self_, fallback, var, model, fresh_var_map, length_vars, int_vars):
+            result = orig_int(self_, fallback, var, model, fresh_var_map, length_vars, int_vars)
+            if var in int_vars and not var.is_numeric():
+                mon.bump("c14_numeric_built")
+                try:
+                    value = int(model[fresh_var_map[var]].as_string())
+                except Exception:
+                    return result
+                problem = targets.judge_numeric(self_.grammar, var.n_type, value, to_model(result))
+                if problem:
+                    mon.violations.append({"property": "C14", "clause": "solver_numeric_value", "detail": problem})
+            return result
+
+        sv.ISLaSolver.extract_model_value_int_var = extract_model_value_int_var
+        undo.append(lambda: setattr(sv.ISLaSolver, "extract_model_value_int_var", orig_int))
+
+        pred = ip.COUNT_PREDICATE
+        orig_count = pred.eval_fun
+
+        def count(graph, in_tree, needle, num, negate=False):
+            res = orig_count(graph, in_tree, needle, num, negate=negate)
+            out = getattr(res, "result", None)
+            if isinstance(out, dict) and not negate and hasattr(in_tree, "children") and len(out) == 1:
+                (key, cand), = out.items()
+                if key is in_tree or getattr(key, "id", None) == getattr(in_tree, "id", object()):
+                    mon.bump("c14_count_completion")
+                    try:
+                        k = int(num if isinstance(num, str) else num.value)
+                        g = graph.to_grammar()
+                        problem = targets.judge_count(g, in_tree.value, needle, k, to_model(cand))
+                    except (ValueError, AttributeError):
+                        problem = None
+                    if problem:
+                        mon.violations.append({"property": "C14", "clause": "solver_count_completion", "detail": f"count(.., {needle}, {num}): {problem}"})
+            return res
+
+        try:
+            pred.eval_fun = count
+            undo.append(lambda: setattr(pred, "eval_fun", orig_count))
+        except Exception:
+            pass
+        self._undo = undo
+
+    def uninstall(self):
+        for u in reversed(getattr(self, "_undo", [])):
+            u()
+
     def wrap_fuzzer(self, fuzzer, grammar):
         mon = self
         orig = fuzzer.expand_tree
@@ -328,11 +403,13 @@ def execute(plan: Dict[str, Any]) -> Dict[str, Any]:
     viol = record["violations"]
     with Quiet():
         world.install()
+        monitors.install()
         try:
             _run(plan, world, monitors, record)
         except SimBudgetExceeded:
             record["inconclusive"].append("total_work_cap")
         finally:
+            monitors.uninstall()
             world.uninstall()
     for v in monitors.violations:
         viol.append(v)
